@@ -257,7 +257,7 @@ theorem raw_never_err (op : ArithOp) (w : IW) (x y : Int) : op.raw w x y ≠ .er
     (repeat' split) <;> simp
 
 /-- On a row whose two operands are non-NULL, a successful raw computation is the SQL value. -/
-theorem arith_slot (op : ArithOp) (hop : op ≠ .div) (w : IW) (x y c : Int)
+theorem arith_slot (op : ArithOp) (hop : op.safens = false) (w : IW) (x y c : Int)
     (hc : op.raw w x y = .ok c) : specArith op w (some x) (some y) = .ok (some c) := by
   cases op with
   | add =>
@@ -272,22 +272,13 @@ theorem arith_slot (op : ArithOp) (hop : op ≠ .div) (w : IW) (x y c : Int)
     simp only [ArithOp.raw, mulW, chk] at hc
     simp only [specArith]
     split at hc <;> simp_all
-  | div => exact absurd rfl hop
-  | rem =>
-    simp only [ArithOp.raw, remW] at hc
-    simp only [specArith]
-    split at hc
-    · cases hc
-    · split at hc
-      · cases hc
-      · simp_all
+  | div => simp [ArithOp.safens] at hop
+  | rem => simp [ArithOp.safens] at hop
 
-theorem arith_pointwise_partial (op : ArithOp) (hop : op ≠ .div) (w : IW) (a b : Arr Int)
+theorem arith_pointwise_partial (op : ArithOp) (hop : op.safens = false) (w : IW) (a b : Arr Int)
     (h : RawNoFault op w a b) :
     (arithK op w a b).map vals = rows2 (specArith op w) (vals a) (vals b) := by
-  have hne : (op == ArithOp.div) = false := by
-    cases op <;> first | exact absurd rfl hop | decide
-  simp only [arithK, hne]
+  simp only [arithK, hop]
   rw [binaryOp_eq_zipSlotM' _ _ _ (raw_never_err op w)]
   apply zipSlotM_vals'
   intro p hp
@@ -305,7 +296,7 @@ theorem arith_pointwise_partial (op : ArithOp) (hop : op ≠ .div) (w : IW) (a b
 theorem div_pointwise_partial (w : IW) (a b : Arr Int)
     (h : RawNoFault .div w a (safenDividend b)) :
     (arithK .div w a b).map vals = rows2 (specArith .div w) (vals a) (vals b) := by
-  simp only [arithK, beq_self_eq_true, if_true]
+  simp only [arithK, ArithOp.safens, if_true]
   rw [binaryOp_eq_zipSlotM' _ _ _ (raw_never_err .div w)]
   · unfold safenDividend at h ⊢
     rw [zipSlotM_map_right]
@@ -325,6 +316,45 @@ theorem div_pointwise_partial (w : IW) (a b : Arr Int)
     · simp only [hz, beq_iff_eq, if_false, divW, chk] at hc
       cases va <;> cases vb <;> simp [KOut.map, Slot.val, specArith, hz]
       split at hc <;> simp_all
+
+/-- K for `%` (since /repo f444b3f the divisor is safened like for `/`): `x % 0` is NULL; under
+the forced hypothesis that the raw computation succeeds on every slot after safening (no
+`MIN % -1`, also not under NULL slots) the kernel is the row-wise SQL remainder. -/
+theorem rem_pointwise (w : IW) (a b : Arr Int)
+    (h : RawNoFault .rem w a (safenDividend b)) :
+    (arithK .rem w a b).map vals = rows2 (specArith .rem w) (vals a) (vals b) := by
+  simp only [arithK, ArithOp.safens, if_true]
+  rw [binaryOp_eq_zipSlotM' _ _ _ (raw_never_err .rem w)]
+  · unfold safenDividend at h ⊢
+    rw [zipSlotM_map_right]
+    apply zipSlotM_vals'
+    intro p hp
+    have hp' : (p.1, (⟨p.2.valid && p.2.raw != 0, if p.2.raw == 0 then 1 else p.2.raw⟩ : Slot Int))
+        ∈ List.zip a (b.map fun s => ⟨s.valid && s.raw != 0, if s.raw == 0 then 1 else s.raw⟩) := by
+      rw [List.zip_map_right]
+      exact List.mem_map.mpr ⟨p, hp, rfl⟩
+    obtain ⟨c, hc⟩ := h _ hp'
+    rcases p with ⟨⟨va, ra⟩, ⟨vb, rb⟩⟩
+    simp only [binSlot, ArithOp.raw] at hc ⊢
+    rw [hc]
+    by_cases hz : rb = 0
+    · subst hz
+      cases va <;> cases vb <;> simp [KOut.map, Slot.val, specArith]
+    · simp only [hz, beq_iff_eq, if_false, remW] at hc
+      cases va <;> cases vb <;> simp [KOut.map, Slot.val, specArith, hz]
+      split at hc
+      · cases hc
+      · cases hc; simp_all
+
+/-- `x % 0` and `x % NULL` (raw 0 under the NULL) are NULL. -/
+theorem rem_zero_is_null :
+    arithK .rem .w32 [⟨true, 1⟩, ⟨true, 7⟩] [⟨true, 0⟩, ⟨false, 0⟩]
+      = .ok [⟨false, 0⟩, ⟨false, 0⟩] := by decide
+
+/-- Witness kept: `%` like `/` is safened only against zero: raw `-1` under a NULL divisor with
+dividend MIN still faults. -/
+theorem rem_null_slot_faults :
+    arithK .rem .w32 [⟨true, -2147483648⟩] [⟨false, -1⟩] = .panic := by decide
 
 example : RawNoFault .add .w32 [⟨true, 1⟩, ⟨false, 0⟩] [⟨true, 2⟩, ⟨true, 5⟩] := by
   intro p hp; simp at hp
@@ -348,15 +378,6 @@ theorem null_slot_never_faults_unsound : ¬ NullSlotNeverFaults .add := by
 theorem arith_add_pointwise_unsound : ¬ ArithPointwise .add := by
   intro h
   exact absurd (h .w32 [⟨false, 2147483647⟩] [⟨true, 1⟩]) (by decide)
-
-/-- Witness: `1 % 0` panics; SQL (and the property) say NULL. Also `x % NULL` when the raw
-value under the NULL is the builder default 0. -/
-theorem rem_zero_divisor_unsound : ¬ ArithPointwise .rem := by
-  intro h
-  exact absurd (h .w32 [⟨true, 1⟩] [⟨true, 0⟩]) (by decide)
-
-theorem rem_null_divisor_faults :
-    arithK .rem .w32 [⟨true, 1⟩] [⟨false, 0⟩] = .panic := by decide
 
 /-- Witness: `/` is safened only against zero: raw `-1` under a NULL divisor with dividend MIN
 still faults. -/
@@ -399,7 +420,7 @@ theorem batch_independent_arith (op : ArithOp) (w : IW) (a1 a2 b1 b2 : Arr Int)
     arithK op w (a1 ++ a2) (b1 ++ b2)
       = KOut.append2 (arithK op w a1 b1) (arithK op w a2 b2) := by
   unfold arithK
-  cases hop : (op == ArithOp.div)
+  cases hop : op.safens
   · simp only [Bool.false_eq_true, if_false]
     exact batch_independent_binary _ a1 a2 b1 b2 h1 h2
   · simp only [if_true, safenDividend, List.map_append]
@@ -442,14 +463,23 @@ theorem arith_no_tag (op : ArithOp) (w : IW) (x y : Arr Int) (hl : x.length = y.
     (arithK op w x y).map vals = rows2 (specArith op w) (vals x) (vals y) := by
   unfold arithTags at h
   simp only [hl, ne_eq, not_true_eq_false, if_false] at h
-  by_cases hr : rawNoFaultB op w x (if op == .div then safenDividend y else y) = true
-  · by_cases hd : op = .div
-    · subst hd
-      simp only [beq_self_eq_true, if_true] at hr
+  by_cases hr : rawNoFaultB op w x (if op.safens then safenDividend y else y) = true
+  · cases op with
+    | div =>
+      simp only [ArithOp.safens, if_true] at hr
       exact div_pointwise_partial _ x y (rawNoFault_of_B _ _ _ _ hr)
-    · have hne : (op == ArithOp.div) = false := by simpa using hd
-      simp only [hne, Bool.false_eq_true, if_false] at hr
-      exact arith_pointwise_partial op hd _ x y (rawNoFault_of_B _ _ _ _ hr)
+    | rem =>
+      simp only [ArithOp.safens, if_true] at hr
+      exact rem_pointwise _ x y (rawNoFault_of_B _ _ _ _ hr)
+    | add =>
+      simp only [ArithOp.safens, Bool.false_eq_true, if_false] at hr
+      exact arith_pointwise_partial .add rfl _ x y (rawNoFault_of_B _ _ _ _ hr)
+    | sub =>
+      simp only [ArithOp.safens, Bool.false_eq_true, if_false] at hr
+      exact arith_pointwise_partial .sub rfl _ x y (rawNoFault_of_B _ _ _ _ hr)
+    | mul =>
+      simp only [ArithOp.safens, Bool.false_eq_true, if_false] at hr
+      exact arith_pointwise_partial .mul rfl _ x y (rawNoFault_of_B _ _ _ _ hr)
   · simp only [hr, Bool.false_eq_true, if_false] at h
     repeat' (split at h)
     all_goals exact absurd h (List.cons_ne_nil _ _)
@@ -1377,9 +1407,10 @@ theorem fold_eq_eval_unsound : ¬ FoldEqEval := by
 example : foldC (.arith .div (.const (.int .w32 1)) (.const (.int .w32 0))) = .ok (some .null) := by
   decide
 
-/-- `x % 0` and an overflowing constant panic inside the analysis, i.e. while planning. -/
-theorem fold_rem_zero_panics :
-    foldC (.arith .rem (.const (.int .w32 1)) (.const (.int .w32 0))) = .panic := by decide
+/-- `x % 0` folds to NULL (since /repo f444b3f); an overflowing constant panics inside the
+analysis, i.e. while planning. -/
+theorem fold_rem_zero_is_null :
+    foldC (.arith .rem (.const (.int .w32 1)) (.const (.int .w32 0))) = .ok (some .null) := by decide
 
 theorem fold_overflow_panics :
     foldC (.arith .add (.const (.int .w32 2147483647)) (.const (.int .w32 1))) = .panic := by decide
@@ -1533,9 +1564,9 @@ theorem arith_strict (op : ArithOp) (ca cb c : Col) (la : ca.len = 1) (lb : cb.l
   | [s], [t], _, _ =>
     rcases hn with hn | hn
     · have := one_row_null_int wa [s] rfl hn s (by simp)
-      cases hd : (op == ArithOp.div) <;> simp [hd, safenDividend] at hp <;> (subst hp; simp [this])
+      cases hd : op.safens <;> simp [hd, safenDividend] at hp <;> (subst hp; simp [this])
     · have := one_row_null_int wb [t] rfl hn t (by simp)
-      cases hd : (op == ArithOp.div) <;> simp [hd, safenDividend] at hp <;> (subst hp; simp [this])
+      cases hd : op.safens <;> simp [hd, safenDividend] at hp <;> (subst hp; simp [this])
 
 
 theorem one_row_null_bool (a : Arr Bool) (hl : (Col.bool a).len = 1)
